@@ -9,41 +9,58 @@
 (*   fetch function at most once among concurrent callers of the same key, *)
 (*   giving all of them its result and caching it only on success.         *)
 (*                                                                         *)
+(* The contract is a contract of ONE cache: a history may use several      *)
+(* cache instances at the same time (event field c, the cache id), and     *)
+(* every piece of state below - what is cached, which flight is            *)
+(* registered, "a successful fetch has ended" - exists once per cache      *)
+(* instance.  The callers of cache c that "share a fetch" are the callers  *)
+(* of c: a Take on c can only be answered from c's entries or by a run of  *)
+(* the fetch function handed to a Take on c, and whatever a Take on c      *)
+(* fetched successfully is found by a later Get on c.  Nothing that        *)
+(* happens on another instance is an explanation for a result on c.        *)
+(*                                                                         *)
 (* Logged events: inv (before the call), fb / fe (first and last statement *)
 (* of the caller's fetch function, fe carries its outcome), ret (after the *)
-(* call, with the returned value or error).  The histories contain only    *)
-(* Take calls (no Set, Del, eviction or expiry).                           *)
+(* call, with the returned value or error), gi / gr (before and after a    *)
+(* Get, gr carries hit and value).  The histories contain only Take and    *)
+(* Get calls (no Set, Del, eviction or expiry), so an entry, once cached,  *)
+(* stays.                                                                  *)
 (*                                                                         *)
-(* Rules for the fetch function (event fb of caller p, key k):             *)
-(*   F1  no flight is registered for k: fetch executions of one key never  *)
-(*       overlap (a flight is registered from its fb until its owner       *)
-(*       publishes);                                                       *)
-(*   F2  nothing is cached for k;                                          *)
-(*   F3  no successful fetch of k has ENDED earlier in the history         *)
-(*       (done[k]): fe is logged inside the fetch function, i.e. before    *)
+(* Rules for the fetch function (event fb of caller p, cache c, key k):    *)
+(*   F1  no flight is registered for (c,k): fetch executions of one key of *)
+(*       one cache never overlap (a flight is registered from its fb until *)
+(*       its owner publishes);                                             *)
+(*   F2  nothing is cached for (c,k);                                      *)
+(*   F3  no successful fetch of (c,k) has ENDED earlier in the history     *)
+(*       (done[c][k]): fe is logged inside the fetch function, i.e. before *)
 (*       the owner stores the value and before its flight is removed; a    *)
 (*       later owner can only register after that removal and looks the    *)
-(*       key up again, so in a correct cache no fb for k follows a         *)
-(*       successful fe for k.  (F3 follows from F1+F2 and the placement of *)
-(*       Finish below; it is stated on its own because it is the clause    *)
-(*       "at most once among concurrent callers" for callers that missed   *)
-(*       the cache before the value was stored but reached the flight      *)
-(*       group after the flight was removed.)                              *)
+(*       key up again, so in a correct cache no fb for (c,k) follows a     *)
+(*       successful fe for (c,k).  (F3 follows from F1+F2 and the          *)
+(*       placement of Finish below; it is stated on its own because it is  *)
+(*       the clause "at most once among concurrent callers" for callers    *)
+(*       that missed the cache before the value was stored but reached the *)
+(*       flight group after the flight was removed.)                       *)
 (* NOT logged, placed by TLC:                                              *)
 (*   Finish(p)  the moment the flight's owner publishes: the value is      *)
-(*              cached iff the fetch succeeded, the flight is unregistered.*)
+(*              cached (in the owner's cache) iff the fetch succeeded, the *)
+(*              flight is unregistered.                                    *)
 (* What a caller that does not fetch may return: while it is invoked the   *)
-(* acceptor collects its options - a value that was cached at some moment  *)
-(* of the call, or the result of a flight that was registered at some      *)
-(* moment of the call (resolved when it returns).  A failed flight hands   *)
-(* its callers the fetch function's own error and caches nothing, so a     *)
-(* later caller has no option but to fetch.                                *)
+(* acceptor collects its options - a value that was cached IN ITS CACHE at *)
+(* some moment of the call, or the result of a flight that was registered  *)
+(* FOR ITS CACHE at some moment of the call (resolved when it returns).  A *)
+(* failed flight hands its callers the fetch function's own error and      *)
+(* caches nothing, so a later caller has no option but to fetch.           *)
+(* What a Get may return: the content of (c,k) at some moment between gi   *)
+(* and gr (a miss iff nothing was cached at such a moment).  Because a     *)
+(* successful Take on (c,k) returns only after (c,k) holds a value, a Get  *)
+(* on c that starts after it hits.                                         *)
 (* A history is accepted iff some placement of the Finish steps explains   *)
 (* every logged event.  (The only nondeterminism is that placement, so the *)
 (* acceptor scales to histories with dozens of concurrent callers.)        *)
 (*                                                                         *)
 (* Histories are concatenated; `reset` (legal only at quiescence)          *)
-(* re-establishes the empty cache.  Acceptance: the high-water mark of l   *)
+(* re-establishes empty caches.  Acceptance: the high-water mark of l      *)
 (* (TLC register 1) reaches Len(TraceLog) + 1.                             *)
 (***************************************************************************)
 EXTENDS Integers, Sequences, FiniteSets, TLC, Json
@@ -51,85 +68,92 @@ EXTENDS Integers, Sequences, FiniteSets, TLC, Json
 TraceLog == ndJsonDeserialize("trace.ndjson")
 
 VARIABLES l,        \* next event to consume
-          cached,   \* [Keys -> Int], 0 = nothing cached
-          flight,   \* [Keys -> Nat], id of the registered flight, 0 = none
+          cached,   \* [Caches -> [Keys -> Int]], 0 = nothing cached
+          flight,   \* [Caches -> [Keys -> Nat]], id of the registered flight, 0 = none
           nf,       \* flights created so far in this history
           fres,     \* flight id -> [ok, v] once published
-          done,     \* [Keys -> BOOLEAN]: a successful fetch of the key has ended
+          done,     \* [Caches -> [Keys -> BOOLEAN]]: a successful fetch of the key has ended
           pc        \* per process call state
 
 vars == <<l, cached, flight, nf, fres, done, pc>>
 
 Keys == {"a", "b"}
+Caches == 1..2
 Procs == 0..63
 Idle == [s |-> "idle"]
 Ev == TraceLog[l]
 Is(name) == l <= Len(TraceLog) /\ TraceLog[l].e = name
 Consume == l' = l + 1
 P == Ev.p
+C == IF "c" \in DOMAIN Ev THEN Ev.c ELSE 1      \* histories of one cache may leave the id out
 
-\* what a caller looking at key k right now would get without fetching
-Avail(c, f, k) == IF c[k] # 0 THEN {[t |-> "hit", x |-> c[k]]}
-                  ELSE IF f[k] # 0 THEN {[t |-> "join", x |-> f[k]]} ELSE {}
+PerKey(x) == [c \in Caches |-> [k \in Keys |-> x]]
 
-\* process p takes state r; every other caller waiting on key k learns the options `add`
-Update(p, r, k, add) ==
+\* what a caller of cache c looking at key k right now would get without fetching
+Avail(cd, fl, c, k) == IF cd[c][k] # 0 THEN {[t |-> "hit", x |-> cd[c][k]]}
+                       ELSE IF fl[c][k] # 0 THEN {[t |-> "join", x |-> fl[c][k]]} ELSE {}
+
+\* process p takes state r; every other caller waiting on key k OF CACHE c learns the options
+\* `add`, every Get in progress on (c,k) the contents `see`
+Update(p, r, c, k, add, see) ==
   pc' = [q \in Procs |->
            IF q = p THEN r
-           ELSE IF pc[q].s = "inv" /\ pc[q].k = k THEN [pc[q] EXCEPT !.opts = @ \cup add]
+           ELSE IF pc[q].s = "inv" /\ pc[q].c = c /\ pc[q].k = k THEN [pc[q] EXCEPT !.opts = @ \cup add]
+           ELSE IF pc[q].s = "get" /\ pc[q].c = c /\ pc[q].k = k THEN [pc[q] EXCEPT !.seen = @ \cup see]
            ELSE pc[q]]
 
 Init ==
   /\ l = 1
-  /\ cached = [k \in Keys |-> 0]
-  /\ flight = [k \in Keys |-> 0]
+  /\ cached = PerKey(0)
+  /\ flight = PerKey(0)
   /\ nf = 0
   /\ fres = <<>>
-  /\ done = [k \in Keys |-> FALSE]
+  /\ done = PerKey(FALSE)
   /\ pc = [p \in Procs |-> Idle]
   /\ TLCSet(1, 1)
 
 Reset ==
   /\ Is("reset")
   /\ \A p \in Procs : pc[p] = Idle
-  /\ cached' = [k \in Keys |-> 0]
-  /\ flight' = [k \in Keys |-> 0]
+  /\ cached' = PerKey(0)
+  /\ flight' = PerKey(0)
   /\ nf' = 0
   /\ fres' = <<>>
-  /\ done' = [k \in Keys |-> FALSE]
+  /\ done' = PerKey(FALSE)
   /\ UNCHANGED pc
   /\ Consume
 
 Inv ==
-  /\ Is("inv") /\ pc[P] = Idle
-  /\ pc' = [pc EXCEPT ![P] = [s |-> "inv", k |-> Ev.k, opts |-> Avail(cached, flight, Ev.k)]]
+  /\ Is("inv") /\ pc[P] = Idle /\ C \in Caches
+  /\ pc' = [pc EXCEPT ![P] = [s |-> "inv", c |-> C, k |-> Ev.k, opts |-> Avail(cached, flight, C, Ev.k)]]
   /\ UNCHANGED <<cached, flight, nf, fres, done>> /\ Consume
 
 FetchBegin ==
-  /\ Is("fb") /\ pc[P].s = "inv" /\ pc[P].k = Ev.k
-  /\ flight[Ev.k] = 0                    \* F1
-  /\ cached[Ev.k] = 0                    \* F2
-  /\ ~done[Ev.k]                         \* F3
+  /\ Is("fb") /\ pc[P].s = "inv" /\ pc[P].c = C /\ pc[P].k = Ev.k
+  /\ flight[C][Ev.k] = 0                 \* F1
+  /\ cached[C][Ev.k] = 0                 \* F2
+  /\ ~done[C][Ev.k]                      \* F3
   /\ nf' = nf + 1
-  /\ flight' = [flight EXCEPT ![Ev.k] = nf + 1]
-  /\ Update(P, [s |-> "lead", k |-> Ev.k, id |-> nf + 1, ph |-> "run", ok |-> FALSE, v |-> 0],
-            Ev.k, {[t |-> "join", x |-> nf + 1]})
+  /\ flight' = [flight EXCEPT ![C][Ev.k] = nf + 1]
+  /\ Update(P, [s |-> "lead", c |-> C, k |-> Ev.k, id |-> nf + 1, ph |-> "run", ok |-> FALSE, v |-> 0],
+            C, Ev.k, {[t |-> "join", x |-> nf + 1]}, {})
   /\ UNCHANGED <<cached, fres, done>> /\ Consume
 
 FetchEnd ==
-  /\ Is("fe") /\ pc[P].s = "lead" /\ pc[P].ph = "run" /\ pc[P].k = Ev.k
+  /\ Is("fe") /\ pc[P].s = "lead" /\ pc[P].ph = "run" /\ pc[P].c = C /\ pc[P].k = Ev.k
   /\ pc' = [pc EXCEPT ![P] = [@ EXCEPT !.ph = "ran", !.ok = Ev.ok, !.v = Ev.v]]
-  /\ done' = [done EXCEPT ![Ev.k] = @ \/ Ev.ok]
+  /\ done' = [done EXCEPT ![C][Ev.k] = @ \/ Ev.ok]
   /\ UNCHANGED <<cached, flight, nf, fres>> /\ Consume
 
 Finish(p) ==                                 \* internal
   /\ pc[p].s = "lead" /\ pc[p].ph = "ran"
-  /\ LET k == pc[p].k
-         c1 == IF pc[p].ok THEN [cached EXCEPT ![k] = pc[p].v] ELSE cached
-         f1 == [flight EXCEPT ![k] = 0] IN
+  /\ LET c == pc[p].c
+         k == pc[p].k
+         c1 == IF pc[p].ok THEN [cached EXCEPT ![c][k] = pc[p].v] ELSE cached
+         f1 == [flight EXCEPT ![c][k] = 0] IN
        /\ cached' = c1
        /\ flight' = f1
-       /\ Update(p, [pc[p] EXCEPT !.ph = "fin"], k, Avail(c1, f1, k))
+       /\ Update(p, [pc[p] EXCEPT !.ph = "fin"], c, k, Avail(c1, f1, c, k), {c1[c][k]})
   /\ fres' = (pc[p].id :> [ok |-> pc[p].ok, v |-> pc[p].v]) @@ fres
   /\ UNCHANGED <<l, nf, done>>
 
@@ -141,25 +165,38 @@ Explains(o) ==
   \/ o.t = "join" /\ o.x \in DOMAIN fres /\ Matches(fres[o.x])
 
 Ret ==
-  /\ Is("ret") /\ pc[P].s \in {"inv", "lead"} /\ pc[P].k = Ev.k
+  /\ Is("ret") /\ pc[P].s \in {"inv", "lead"} /\ pc[P].c = C /\ pc[P].k = Ev.k
   /\ \/ pc[P].s = "inv" /\ \E o \in pc[P].opts : Explains(o)
      \/ pc[P].s = "lead" /\ pc[P].ph = "fin" /\ Matches(fres[pc[P].id])
   /\ pc' = [pc EXCEPT ![P] = Idle]
   /\ UNCHANGED <<cached, flight, nf, fres, done>> /\ Consume
 
+GetInv ==
+  /\ Is("gi") /\ pc[P] = Idle /\ C \in Caches
+  /\ pc' = [pc EXCEPT ![P] = [s |-> "get", c |-> C, k |-> Ev.k, seen |-> {cached[C][Ev.k]}]]
+  /\ UNCHANGED <<cached, flight, nf, fres, done>> /\ Consume
+
+GetRet ==
+  /\ Is("gr") /\ pc[P].s = "get" /\ pc[P].c = C /\ pc[P].k = Ev.k
+  /\ IF Ev.hit THEN Ev.v # 0 /\ Ev.v \in pc[P].seen ELSE 0 \in pc[P].seen
+  /\ pc' = [pc EXCEPT ![P] = Idle]
+  /\ UNCHANGED <<cached, flight, nf, fres, done>> /\ Consume
+
 Next ==
-  \/ Reset \/ Inv \/ FetchBegin \/ FetchEnd \/ Ret
+  \/ Reset \/ Inv \/ FetchBegin \/ FetchEnd \/ Ret \/ GetInv \/ GetRet
   \/ \E p \in Procs : Finish(p)
 
 Spec == Init /\ [][Next]_vars
 
-\* the registered flight of a key is owned by exactly one caller that has not yet published
+\* the registered flight of a key of a cache is owned by exactly one caller (of that cache) that has
+\* not yet published
 FlightsDisjoint ==
-  \A k \in Keys :
-    Cardinality({p \in Procs : pc[p].s = "lead" /\ pc[p].k = k /\ pc[p].ph # "fin"}) = (IF flight[k] = 0 THEN 0 ELSE 1)
+  \A c \in Caches, k \in Keys :
+    Cardinality({p \in Procs : pc[p].s = "lead" /\ pc[p].c = c /\ pc[p].k = k /\ pc[p].ph # "fin"})
+      = (IF flight[c][k] = 0 THEN 0 ELSE 1)
 
-\* a value is cached only after a successful fetch of that key has ended
-CachedOnlyOnSuccess == \A k \in Keys : cached[k] # 0 => done[k]
+\* a value is cached in a cache only after a successful fetch of that key BY THAT CACHE has ended
+CachedOnlyOnSuccess == \A c \in Caches, k \in Keys : cached[c][k] # 0 => done[c][k]
 
 HighWater == IF l > TLCGet(1) THEN TLCSet(1, l) ELSE TRUE     \* used as CONSTRAINT (always TRUE)
 Accepted  == /\ PrintT(<<"VREG", "hw", TLCGet(1)>>)
